@@ -112,6 +112,28 @@ def native(chk):
     return exe
 
 
+def native_stage(chk):
+    """real Processor objects constructed over dirty and clean storage / heaps (needs no extracted text)"""
+    exe = native(chk)
+    rc, o, e, secs = hv.run([exe, "replay"], timeout=300)
+    try:
+        nat = json.loads(o)
+    except Exception:
+        raise hv.Infra("native determinism stage failed: " + (o + e)[-800:])
+    nat["stage"] = ("real hexsim::Processor built over dirty and over clean storage (placement new) and dirty/clean heaps (operator new pre-fill), same image: "
+                    "unwritten word read, cycle-limited status, binary cut short")
+    chk.native.append(nat)
+    return nat
+
+
+def native_only(chk):
+    nat = native_stage(chk)
+    if nat.get("ok") is False:
+        p = chk.replay_path("native")
+        json.dump({"property": PID, "obligation": "native determinism stage", "real_code_result": nat, "how": "./check C12 --replay x"}, open(p, "w"), indent=1)
+        chk.add_violation("native-determinism", p, nat.get("why", ""), True)
+
+
 def main(chk, replay_file):
     tier = chk.tier
     unit = build_unit(chk)
@@ -136,7 +158,7 @@ def main(chk, replay_file):
     J = hv.Job
     jobs = [
         J("init.determined", unit, "h_init_determined", functions=["Processor ctor", "HexSimIO ctor", "load"], note="two arbitrary host states, any image length up to 200000 words"),
-        J("step.traced", unit, "h_step", defines=["TRACING_INIT=true"], replace=["lookupSymbol"], functions=["run() loop body", "trace", "traceSyscall", "syscall"],
+        J("step.traced", unit, "h_step", defines=["TRACING_INIT=true"], replace=["lookupSymbol"], stop_on_fail=True, functions=["run() loop body", "trace", "traceSyscall", "syscall"],
           note="C02 step contract with tracing on"),
         J("trace.frame", unit, "h_trace_frame", enforce="trace", replace=["lookupSymbol"], functions=["trace"], role="aux"),
         J("traceSyscall.frame", unit, "h_traceSyscall_frame", enforce="traceSyscall", functions=["traceSyscall"], role="aux"),
@@ -148,15 +170,7 @@ def main(chk, replay_file):
         jobs.append(J("init.determined@cvc5", unit, "h_init_determined", solver=["--cvc5"], timeout=3000, note="second back end"))
     chk.jobs = jobs
     hv.run_jobs(jobs, chk.out)
-    exe = native(chk)
-    # native confirmation stage: real Processor objects constructed over dirty and clean storage
-    rc, o, e, secs = hv.run([exe, "replay"], timeout=300)
-    try:
-        nat = json.loads(o)
-    except Exception:
-        raise hv.Infra("native determinism stage failed: " + (o + e)[-800:])
-    nat["stage"] = "real hexsim::Processor built over dirty and over clean storage (placement new), same image: unwritten word read + cycle-limited status"
-    chk.native.append(nat)
+    nat = native_stage(chk)
     for j in jobs:
         r = j.result
         if j.kind != "proof" or r["status"] != "failed" or j.role != "property":
